@@ -191,6 +191,19 @@ func (l *Lexer) shiftDOCTYPEText() []byte {
 			}
 		} else if c == '"' || c == '\'' {
 			quote = c
+		} else if c == '<' && l.at('<', '!', '-', '-') {
+			// comment in the internal subset: its content is not markup
+			l.r.Move(4)
+			for {
+				if c = l.r.Peek(0); c == 0 || c == '-' && l.r.Peek(1) == '-' && l.r.Peek(2) == '>' {
+					break
+				}
+				l.r.Move(1)
+			}
+			if c == 0 {
+				continue
+			}
+			l.r.Move(2)
 		} else if c == '[' || c == ']' {
 			inBrackets = (c == '[')
 		} else if c == '>' && !inBrackets {
